@@ -418,7 +418,10 @@ def inline_into(fn, callee_of, eligible, depth=0, expander=None):
             n += 1
             continue
         g = callee_of(t)
-        if g is None or g is fn or not eligible(g) or len(g.blocks) > MAX_BLOCKS or not t.get("succ"):
+        if g is None or g is fn or not eligible(g) or len(g.blocks) > MAX_BLOCKS:
+            continue
+        diverges = not t.get("succ")
+        if diverges and any(x["term"]["t"] == "return" for x in g.blocks if not x["cleanup"]):
             continue
         lo = len(fn.locals)
         bo = len(fn.blocks)
@@ -432,9 +435,10 @@ def inline_into(fn, callee_of, eligible, depth=0, expander=None):
             if nb["term"]["t"] == "return":
                 nb["term"] = {"t": "goto", "succ": [ret_id], "sp": nb["term"].get("sp") or t.get("sp")}
         sp = t.get("sp")
+        # a helper that never returns (`fn no_such_column(..) -> !`) has no continuation: its body simply ends in its own panic
         retb = {"id": ret_id, "cleanup": False, "inl": True, "inl_depth": b.get("inl_depth", 0), "inl_from": g.name,
-                "stmts": [{"lhs": t["dest"], "rhs": {"rv": "use", "ops": [{"k": "move", "pl": {"l": lo, "p": []}}]}, "sp": sp}],
-                "term": {"t": "goto", "succ": [t["succ"][0]], "sp": sp}}
+                "stmts": [] if diverges else [{"lhs": t["dest"], "rhs": {"rv": "use", "ops": [{"k": "move", "pl": {"l": lo, "p": []}}]}, "sp": sp}],
+                "term": {"t": "unreachable", "sp": sp} if diverges else {"t": "goto", "succ": [t["succ"][0]], "sp": sp}}
         if getattr(g, "closure_call", False):
             # `f(x, y)` on a local closure: MIR passes (&closure, (x, y)); the closure body takes the environment and then each argument on its own
             b["stmts"].append({"lhs": {"l": lo + 1, "p": []}, "rhs": {"rv": "use", "ops": [t["args"][0]]}, "sp": sp})
@@ -571,6 +575,10 @@ def run(prog, ws=("msi", "msi_ffi")):
             g = prog.callee_fn(t)
             if g is not None:
                 still.add(g.id)
+            for a in t["args"]:
+                # a function handed over as a value (`starts_with(is_identifier_start)`)
+                if a.get("k") == "const" and a.get("fnid") in prog.fns:
+                    still.add(a["fnid"])
         for b in f.blocks:
             for st in b["stmts"]:
                 op = st["rhs"].get("ops", [])
